@@ -57,6 +57,9 @@ TInit ==
 TNext == PcNext /\ UNCHANGED <<ri, gi>>
 TraceSpec == TInit /\ [][TNext]_<<pcvars, ri, gi>>
 
+AlName(x) == CASE x = 0 -> "None" [] x = 1 -> "Init" [] x = 2 -> "PreOp" [] x = 3 -> "Bootstrap"
+               [] x = 4 -> "SafeOp" [] x = 8 -> "Op" [] OTHER -> "Other"
+
 \* ---- monitor -----------------------------------------------------------------------------
 DgSize(d) == IF d.cmd = "LRW" THEN Overhead + d.len ELSE IF d.cmd = "FRMW" THEN TimeSize ELSE CheckSize
 
@@ -95,6 +98,12 @@ MonitorErrors(r, g, cy) ==
         \cup (IF Len(cy.response.states) # Len(g.members) \/ Len(chks) # Len(g.members)
                  \/ \E i \in 1..Len(chks) : i <= Len(g.addrs) /\ chks[i].adr[1] + 256 * chks[i].adr[2] # g.addrs[i]
               THEN {<<"StateChecks", Len(cy.response.states), Len(chks)>>} ELSE {})
+        \* every entry is what that SubDevice answered; a check that came back unanswered reads None
+        \cup (IF Len(cy.response.states) = Len(chks)
+                 /\ \E i \in 1..Len(chks) :
+                        cy.response.states[i] # (IF chks[i].wkc = 0 THEN "None" ELSE AlName(chks[i].data_in[1] % 16))
+              THEN {<<"StatesNotTheAnswers", cy.response.states, [i \in 1..Len(chks) |-> <<chks[i].wkc, chks[i].data_in[1]>>]>>}
+              ELSE {})
         \cup (IF Len(frs) > Ceil(g.pdi_len, r.case.frame_data) + Ceil(Len(g.members), (r.case.frame_data + 12) \div CheckSize)
                             + (IF clock THEN 1 ELSE 0)
               THEN {<<"TooManyFrames", Len(frs)>>} ELSE {}))
